@@ -779,7 +779,12 @@ async fn c07_phase2<I: Backing>(i: u64, out: &mut CaseOut, inner2: Arc<I>, st: &
     // every mutation visible before the stop is still there or superseded by a newer stamp for that id
     for (ksn, id, t, tomb) in visible {
         let (live, dead) = store_listing(node2.store.as_ref(), ksn).await?;
-        let newer_or_same = live.iter().chain(dead.iter()).any(|e| e.0 == *id && e.1 >= *t);
+        // (still there = same stamp AND same kind: a document that comes back as a tombstone carrying the
+        // document's own stamp is lost, not kept; unless the history itself named that stamp for both kinds)
+        let same = if *tomb { dead.contains(&(*id, *t)) } else { live.contains(&(*id, *t)) };
+        let both_kinds_named = visible.iter().any(|(k2, id2, t2, tomb2)| k2 == ksn && id2 == id && t2 == t && tomb2 != tomb);
+        let flipped = if *tomb { live.contains(&(*id, *t)) } else { dead.contains(&(*id, *t)) };
+        let newer_or_same = same || (flipped && both_kinds_named) || live.iter().chain(dead.iter()).any(|e| e.0 == *id && e.1 > *t);
         // a purge may legitimately remove a tombstone that was visible, including the
         // tombstone which superseded this mutation
         // (on the real-time runtimes the purge can even run between the acknowledgement of the
@@ -791,7 +796,8 @@ async fn c07_phase2<I: Backing>(i: u64, out: &mut CaseOut, inner2: Arc<I>, st: &
             || st.acked_deletes.iter().any(|(k2, id2, t2)| k2 == ksn && id2 == id && t2 > t && purgeable(t2));
         let purged_ok = st.purged_possible && ((*tomb && purgeable(t)) || superseded_by_a_purgeable_delete);
         if !newer_or_same && !purged_ok {
-            out.violate("C07:acknowledged-visible-mutation-lost-by-restart", json!({"keyspace": ksn, "id": id, "stamp": ts_json(*t), "tombstone": tomb, "trace": trace}));
+            let sig = if flipped { "C07:acknowledged-visible-mutation-changed-kind-by-restart" } else { "C07:acknowledged-visible-mutation-lost-by-restart" };
+            out.violate(sig, json!({"keyspace": ksn, "id": id, "stamp": ts_json(*t), "tombstone": tomb, "after_restart_storage_lists_it_as": if flipped { if *tomb { "a live document with that stamp" } else { "a tombstone with that stamp" } } else { "nothing with that or a newer stamp" }, "trace": trace}));
         }
         if !listed.contains(ksn) {
             out.violate("C07:keyspace-with-visible-mutation-not-listed-after-restart", json!({"keyspace": ksn, "listed": listed}));
